@@ -39,12 +39,17 @@ def scratch_root() -> str:
             base = "/dev/shm" if os.path.isdir("/dev/shm") and os.access("/dev/shm", os.W_OK) else tempfile.gettempdir()
         _scratch_root = tempfile.mkdtemp(prefix="verif_", dir=base)
         os.environ.setdefault("VERIF_SCRATCH", _scratch_root)
-        atexit.register(shutil.rmtree, _scratch_root, True)
+        _owner_pid = os.getpid()
+
+        def _cleanup(path: str = _scratch_root, pid: int = _owner_pid) -> None:
+            if os.getpid() == pid:        # forked workers must not remove the parent's scratch
+                shutil.rmtree(path, True)
+        atexit.register(_cleanup)
     return _scratch_root
 
 
 def new_db_path() -> str:
-    d = os.path.join(scratch_root(), f"db{next(_counter)}")
+    d = os.path.join(scratch_root(), f"db{os.getpid()}_{next(_counter)}")   # unique across forked workers
     os.makedirs(d, exist_ok=True)
     return os.path.join(d, "pynenc.sqlite")
 
